@@ -18,6 +18,12 @@ CHECKS = {
  "C08": dict(level="model_checking", technique="explicit-state BFS over metadata histories (real meta.Data) x exhaustive batches over a state-derived timestamp alphabet through the real MapShards, reference routing oracle",
    text="BFS over metadata histories (precreate, alter shard duration, truncate, delete group, add/remove node; depth 3, 4 thorough) on real meta.Data for two retention policies; in every distinct metadata state every batch of 1-2 (3 thorough) points over 4 series spellings x the state's boundary timestamps (group edges +-1ns, truncation times, retention cut-off, min/max time) is mapped by the real PointsWriter.MapShards on a clone and compared with an independent reading of the designated group, FNV-1a shard choice, exactly-once and dropped-iff-too-old.",
    note="fake meta client mirrors meta.Client.CreateShardGroup over real meta.Data; bubble clock for time.Now().", ref="§6 C08"),
+ "C12": dict(level="exploration", technique="bounded-exhaustive input enumeration on the real parser/encoder (all strings <= L over a 16-symbol alphabet, token sequences, constructive points, binary frames, line pairs) with round-trip/differential oracles",
+   text="Every byte string of length <=6 (7 thorough) over 16 symbols the scanner branches on, every token sequence of the token alphabet (with tag permutations), every constructed abstract point serialised by an independent escaper, every binary frame by structure (declared lengths x key x fields x time encodings) and every (accepted line, short neighbour line) pair is run through the real ParsePoints / String / MarshalBinary / NewPointFromBytes: no panic, text and binary round trip to the same point (exact types and bits), fixed point, canonical tag order, FNV-1a hash of the key, tag-order invariance, line independence, precision scaling.",
+   note="small-scope alphabets; violations are keyed by oracle + input class (known parser quirks are listed in known_findings.jsonl).", ref="§6 C12"),
+ "C17": dict(level="model_checking", technique="exhaustive enumeration of configurations/fault positions of the real retention.Service loop on a virtual clock (synctest bubble), reference expiry model",
+   text="The real retention.Service goroutine runs in a synctest bubble (virtual ticker/time.Now). Every tuple of (duration 0/1h/2h, later alteration, state of 4 shard groups: absent/live/truncated/deleted/deleted>2w, tick 1ns before/at/after the expiry boundary, local shard set incl. unknown ids, metadata error at call k, 1-2 passes) is executed (540k executions) and checked: a local shard is deleted only if its group is marked deleted or end+duration < now; after an error-free pass every expired group is marked and every local shard of a deleted/expired group is gone; nothing of an infinite policy expires.",
+   note="meta client is a thin view over a real meta.Data with injected errors; store is a recording stub; the write-time cut-off clause is decided by the C08 check.", ref="§6 C17"),
 }
 NA_REASON = "check not built yet in this round (planned in DESIGN.md §6); nothing is claimed for it"
 m = {
